@@ -1,0 +1,417 @@
+//go:build verif
+
+package ecs
+
+import (
+	"fmt"
+	"sort"
+	"strings"
+)
+
+// This file exists only with build tag "verif". It is used by the external
+// verification harness to observe hidden state. It does not change any behaviour.
+
+func verifEnt(e Entity) string {
+	return fmt.Sprintf("%d:%d", e.id, e.gen)
+}
+
+func verifIDs(ids []ID) string {
+	s := make([]string, len(ids))
+	for i, id := range ids {
+		s[i] = fmt.Sprint(id.id)
+	}
+	return strings.Join(s, ",")
+}
+
+// verifArchName names an archetype by node index and index within the node.
+func (w *World) verifArchName(a *archetype) string {
+	if a == nil {
+		return "-"
+	}
+	ln := w.nodes.Len()
+	var i int32
+	for i = 0; i < ln; i++ {
+		nd := w.nodes.Get(i)
+		if nd.nodeData != a.node.nodeData {
+			continue
+		}
+		if !nd.HasRelation {
+			return fmt.Sprintf("%d.0", i)
+		}
+		cnt := nd.archetypes.Len()
+		var j int32
+		for j = 0; j < cnt; j++ {
+			if nd.archetypes.Get(j) == a {
+				return fmt.Sprintf("%d.%d", i, j)
+			}
+		}
+	}
+	return "?"
+}
+
+func (w *World) verifNodeIndex(n *archNode) int {
+	ln := w.nodes.Len()
+	var i int32
+	for i = 0; i < ln; i++ {
+		if w.nodes.Get(i).nodeData == n.nodeData {
+			return int(i)
+		}
+	}
+	return -1
+}
+
+func (w *World) verifArchLine(sb *strings.Builder, k int, a *archetype) {
+	act := 0
+	if a.IsActive() {
+		act = 1
+	}
+	fmt.Fprintf(sb, " t%d[tgt=%s act=%d len=%d cap=%d ents=", k, verifEnt(a.RelationTarget), act, a.len, a.cap)
+	var r uint32
+	for r = 0; r < a.len; r++ {
+		if r > 0 {
+			sb.WriteString(",")
+		}
+		sb.WriteString(verifEnt(a.GetEntity(r)))
+	}
+	sb.WriteString("]")
+}
+
+// VerifShape returns a canonical digest of the world's hidden state.
+// Sections are separated by " | ". Which parts to include is selected by the argument:
+// 'p' pool, 'i' index, 'f' target flags, 'n' nodes and tables, 'c' cache, 'l' locks.
+func (w *World) VerifShape(parts string) string {
+	sb := strings.Builder{}
+	if strings.Contains(parts, "p") {
+		p := &w.entityPool
+		fmt.Fprintf(&sb, "pool next=%d avail=%d ents=", p.next, p.available)
+		for i, e := range p.entities {
+			if i > 0 {
+				sb.WriteString(",")
+			}
+			sb.WriteString(verifEnt(e))
+		}
+		sb.WriteString(" | ")
+	}
+	if strings.Contains(parts, "i") {
+		fmt.Fprintf(&sb, "index n=%d", len(w.entities))
+		for i, idx := range w.entities {
+			if i == 0 {
+				continue
+			}
+			if idx.arch == nil {
+				fmt.Fprintf(&sb, " %d=-", i)
+			} else {
+				fmt.Fprintf(&sb, " %d=%s.%d", i, w.verifArchName(idx.arch), idx.index)
+			}
+		}
+		sb.WriteString(" | ")
+	}
+	if strings.Contains(parts, "f") {
+		sb.WriteString("flags")
+		for i := 0; i < len(w.entities); i++ {
+			if i/wordSize < len(w.targetEntities.data) && w.targetEntities.Get(eid(i)) {
+				fmt.Fprintf(&sb, " %d", i)
+			}
+		}
+		sb.WriteString(" | ")
+	}
+	if strings.Contains(parts, "n") {
+		ln := w.nodes.Len()
+		var i int32
+		for i = 0; i < ln; i++ {
+			nd := w.nodes.Get(i)
+			rel := "-"
+			if nd.HasRelation {
+				rel = fmt.Sprint(nd.Relation.id)
+			}
+			act := 0
+			if nd.IsActive {
+				act = 1
+			}
+			fmt.Fprintf(&sb, "node%d[ids=%s rel=%s act=%d inc=%d nb=", i, verifIDs(nd.Ids), rel, act, nd.capacityIncrement)
+			first := true
+			for c := 0; c < MaskTotalBits; c++ {
+				if nb, ok := nd.neighbors.Get(uint8(c)); ok {
+					if !first {
+						sb.WriteString(",")
+					}
+					first = false
+					fmt.Fprintf(&sb, "%d>%d", c, w.verifNodeIndex(nb))
+				}
+			}
+			sb.WriteString(" free=")
+			for k, f := range nd.freeIndices {
+				if k > 0 {
+					sb.WriteString(",")
+				}
+				fmt.Fprint(&sb, f)
+			}
+			if nd.HasRelation {
+				keys := make([]Entity, 0, len(nd.archetypeMap))
+				for t := range nd.archetypeMap {
+					keys = append(keys, t)
+				}
+				sort.Slice(keys, func(a, b int) bool {
+					if keys[a].id != keys[b].id {
+						return keys[a].id < keys[b].id
+					}
+					return keys[a].gen < keys[b].gen
+				})
+				sb.WriteString(" map=")
+				for k, t := range keys {
+					if k > 0 {
+						sb.WriteString(",")
+					}
+					fmt.Fprintf(&sb, "%s>%s", verifEnt(t), w.verifArchName(nd.archetypeMap[t]))
+				}
+				cnt := nd.archetypes.Len()
+				var j int32
+				for j = 0; j < cnt; j++ {
+					w.verifArchLine(&sb, int(j), nd.archetypes.Get(j))
+				}
+			} else if nd.archetype != nil {
+				w.verifArchLine(&sb, 0, nd.archetype)
+			}
+			sb.WriteString("] ")
+		}
+		sb.WriteString("| ")
+	}
+	if strings.Contains(parts, "c") {
+		c := &w.filterCache
+		sb.WriteString("cache")
+		for i := range c.filters {
+			e := &c.filters[i]
+			fmt.Fprintf(&sb, " f%d[", e.ID)
+			for k, a := range e.Archetypes.pointers {
+				if k > 0 {
+					sb.WriteString(",")
+				}
+				sb.WriteString(w.verifArchName(a))
+			}
+			sb.WriteString(" idx=")
+			if e.Indices == nil {
+				sb.WriteString("-")
+			} else {
+				items := make([]string, 0, len(e.Indices))
+				for a, pos := range e.Indices {
+					items = append(items, fmt.Sprintf("%s:%d", w.verifArchName(a), pos))
+				}
+				sort.Strings(items)
+				sb.WriteString(strings.Join(items, ","))
+			}
+			sb.WriteString("]")
+		}
+		sb.WriteString(" | ")
+	}
+	if strings.Contains(parts, "l") {
+		sb.WriteString("locks")
+		for c := 0; c < MaskTotalBits; c++ {
+			if w.locks.locks.Get(id(uint8(c))) {
+				fmt.Fprintf(&sb, " %d", c)
+			}
+		}
+		bp := &w.locks.bitPool
+		fmt.Fprintf(&sb, " ; len=%d next=%d avail=%d bits=", bp.length, bp.next, bp.available)
+		for i := 0; i < int(bp.length); i++ {
+			if i > 0 {
+				sb.WriteString(",")
+			}
+			fmt.Fprint(&sb, bp.bits[i])
+		}
+		sb.WriteString(" | ")
+	}
+	return strings.TrimSuffix(strings.TrimSuffix(sb.String(), " "), " |")
+}
+
+// VerifSetGeneration sets the generation of a pool slot.
+// Only used to reach generation wrap-around without 2^32 recycling steps.
+func (w *World) VerifSetGeneration(id uint32, gen uint32) {
+	w.entityPool.entities[id].gen = gen
+}
+
+// VerifCheckInvariants checks structural invariants of the world's internal state.
+// Returns nil if all hold.
+func (w *World) VerifCheckInvariants() error {
+	p := &w.entityPool
+	if len(w.entities) != len(p.entities) {
+		return fmt.Errorf("index length %d != pool length %d", len(w.entities), len(p.entities))
+	}
+	// free chain
+	free := map[eid]bool{}
+	cur := p.next
+	for i := uint32(0); i < p.available; i++ {
+		if cur == 0 || int(cur) >= len(p.entities) {
+			return fmt.Errorf("free chain leaves the pool at step %d (id %d)", i, cur)
+		}
+		if free[cur] {
+			return fmt.Errorf("free chain visits id %d twice", cur)
+		}
+		free[cur] = true
+		cur = p.entities[cur].id
+	}
+	for i := 1; i < len(p.entities); i++ {
+		if !free[eid(i)] && p.entities[i].id != eid(i) {
+			return fmt.Errorf("pool slot %d not free but holds id %d", i, p.entities[i].id)
+		}
+	}
+	// rows <-> index
+	rows := 0
+	seenMask := map[Mask]int{}
+	ln := w.nodes.Len()
+	var i int32
+	for i = 0; i < ln; i++ {
+		nd := w.nodes.Get(i)
+		if j, ok := seenMask[nd.Mask]; ok {
+			return fmt.Errorf("nodes %d and %d share a mask", j, i)
+		}
+		seenMask[nd.Mask] = int(i)
+		prev := -1
+		m := Mask{}
+		relCount := 0
+		for _, id := range nd.Ids {
+			if int(id.id) <= prev {
+				return fmt.Errorf("node %d ids not sorted", i)
+			}
+			prev = int(id.id)
+			m.Set(id, true)
+			if w.registry.IsRelation.Get(id) {
+				relCount++
+				if !nd.HasRelation || nd.Relation != id {
+					return fmt.Errorf("node %d relation id wrong", i)
+				}
+			}
+		}
+		if m != nd.Mask {
+			return fmt.Errorf("node %d ids do not match mask", i)
+		}
+		if relCount > 1 || (relCount == 1) != nd.HasRelation {
+			return fmt.Errorf("node %d relation flag wrong (%d relation ids)", i, relCount)
+		}
+		for c := 0; c < MaskTotalBits; c++ {
+			if nb, ok := nd.neighbors.Get(uint8(c)); ok {
+				x := nd.Mask
+				x.Set(id(uint8(c)), !x.Get(id(uint8(c))))
+				if nb.Mask != x {
+					return fmt.Errorf("node %d neighbour via %d has wrong mask", i, c)
+				}
+			}
+		}
+		if !nd.IsActive {
+			continue
+		}
+		arches := nd.Archetypes()
+		cnt := arches.Len()
+		nFree := 0
+		var j int32
+		for j = 0; j < cnt; j++ {
+			a := arches.Get(j)
+			if a.Mask != nd.Mask {
+				return fmt.Errorf("archetype %d.%d mask differs from node", i, j)
+			}
+			if !a.IsActive() {
+				nFree++
+				if a.len != 0 {
+					return fmt.Errorf("inactive archetype %d.%d has %d rows", i, j, a.len)
+				}
+				found := 0
+				for _, f := range nd.freeIndices {
+					if f == j {
+						found++
+					}
+				}
+				if found != 1 {
+					return fmt.Errorf("inactive archetype %d.%d is %d times in free list", i, j, found)
+				}
+			} else if nd.HasRelation {
+				if nd.archetypeMap[a.RelationTarget] != a {
+					return fmt.Errorf("active archetype %d.%d not in target map", i, j)
+				}
+				if a.index != j {
+					return fmt.Errorf("archetype %d.%d has index %d", i, j, a.index)
+				}
+			} else if !a.RelationTarget.IsZero() {
+				return fmt.Errorf("non-relation archetype %d.%d has a target", i, j)
+			}
+			if a.len > a.cap {
+				return fmt.Errorf("archetype %d.%d len > cap", i, j)
+			}
+			var r uint32
+			for r = 0; r < a.len; r++ {
+				e := a.GetEntity(r)
+				rows++
+				if !p.Alive(e) || e.id == 0 {
+					return fmt.Errorf("archetype %d.%d row %d holds dead entity %v", i, j, r, e)
+				}
+				idx := w.entities[e.id]
+				if idx.arch != a || idx.index != r {
+					return fmt.Errorf("index of entity %v does not point to archetype %d.%d row %d", e, i, j, r)
+				}
+			}
+			// slack must be zero
+			for col, id := range nd.Ids {
+				lay := a.getLayout(id)
+				if lay.pointer == nil {
+					return fmt.Errorf("archetype %d.%d has no layout for its component %d", i, j, id.id)
+				}
+				size := lay.itemSize
+				if size == 0 {
+					continue
+				}
+				_ = col
+				bytes := (*[1 << 30]byte)(lay.pointer)[a.len*size : a.cap*size : a.cap*size]
+				for k, b := range bytes {
+					if b != 0 {
+						return fmt.Errorf("archetype %d.%d component %d: non-zero byte in unused row %d", i, j, id.id, int(a.len)+k/int(size))
+					}
+				}
+			}
+		}
+		if nd.HasRelation {
+			if nFree != len(nd.freeIndices) {
+				return fmt.Errorf("node %d: %d inactive archetypes but %d free indices", i, nFree, len(nd.freeIndices))
+			}
+			if len(nd.archetypeMap) != int(cnt)-nFree {
+				return fmt.Errorf("node %d: target map has %d entries for %d active archetypes", i, len(nd.archetypeMap), int(cnt)-nFree)
+			}
+		}
+	}
+	if rows != p.Len() {
+		return fmt.Errorf("%d rows but %d alive entities", rows, p.Len())
+	}
+	// cache
+	for k := range w.filterCache.filters {
+		e := &w.filterCache.filters[k]
+		seen := map[*archetype]bool{}
+		for pos, a := range e.Archetypes.pointers {
+			if a == nil || seen[a] {
+				return fmt.Errorf("cache entry %d: nil or duplicate archetype", e.ID)
+			}
+			seen[a] = true
+			if !a.IsActive() {
+				return fmt.Errorf("cache entry %d lists inactive archetype %s", e.ID, w.verifArchName(a))
+			}
+			if e.Indices != nil && a.HasRelation() {
+				if q, ok := e.Indices[a]; !ok || q != pos {
+					return fmt.Errorf("cache entry %d: position map wrong for %s", e.ID, w.verifArchName(a))
+				}
+			}
+		}
+		if e.Indices != nil {
+			for a := range e.Indices {
+				if !seen[a] {
+					return fmt.Errorf("cache entry %d: position map has stale %s", e.ID, w.verifArchName(a))
+				}
+			}
+		}
+		want := w.getArchetypes(e.Filter)
+		if len(want) != len(seen) {
+			return fmt.Errorf("cache entry %d lists %d archetypes, filter selects %d", e.ID, len(seen), len(want))
+		}
+		for _, a := range want {
+			if !seen[a] {
+				return fmt.Errorf("cache entry %d misses archetype %s", e.ID, w.verifArchName(a))
+			}
+		}
+	}
+	return nil
+}
